@@ -1908,4 +1908,20 @@ theorem media_side_parse (hC : DtCodecLaws C) (tbl : List OptionRow) (ht : Table
 end
 
 
+theorem fieldIdx_of_get (tbl : List OptionRow) (hnd : (tbl.map OptionRow.fieldName).Nodup) (i : Nat)
+    (r : OptionRow) (h : tbl[i]? = some r) : fieldIdx tbl r.fieldName = some i := by
+  unfold fieldIdx
+  have hlt : i < tbl.length := (List.getElem?_eq_some_iff.mp h).1
+  have hget : tbl[i] = r := (List.getElem?_eq_some_iff.mp h).2
+  apply List.findIdx?_eq_some_iff_getElem.mpr
+  refine ⟨hlt, by simp [hget], ?_⟩
+  intro j hji hc
+  have hjl : j < tbl.length := by omega
+  have hc' : tbl[j].fieldName = r.fieldName := by simpa using hc
+  have hpw : List.Pairwise (· ≠ ·) (tbl.map OptionRow.fieldName) := hnd
+  have := List.pairwise_iff_getElem.mp hpw j i (by simpa using hjl) (by simpa using hlt) hji
+  simp [hget] at this
+  exact this hc'
+
+
 end DashLive.Options
